@@ -2582,9 +2582,20 @@ providedBy(PyObject* module, PyObject* ob)
     _zic_module_state* rec = _zic_state(module);
     specification_base_class = rec->specification_base_class;
 #endif
-    if (PyObject_TypeCheck(result, specification_base_class) ||
-        PyObject_HasAttrString(result, "extends"))
+    if (PyObject_TypeCheck(result, specification_base_class))
         return result;
+
+    cp = PyObject_GetAttrString(result, "extends");
+    if (cp != NULL) {
+        Py_DECREF(cp);
+        return result;
+    }
+    if (!PyErr_ExceptionMatches(PyExc_AttributeError)) {
+        /* Propagate non-AttributeErrors, like the Python implementation */
+        Py_DECREF(result);
+        return NULL;
+    }
+    PyErr_Clear();
 
     /*
       The object's class doesn't understand descriptors.
@@ -2600,6 +2611,10 @@ providedBy(PyObject* module, PyObject* ob)
 
     result = PyObject_GetAttr(ob, str__provides__);
     if (result == NULL) {
+        if (!PyErr_ExceptionMatches(PyExc_AttributeError)) {
+            Py_DECREF(cls);
+            return NULL;
+        }
         /* No __provides__, so just fall back to implementedBy */
         PyErr_Clear();
         result = implementedBy(module, cls);
@@ -2609,6 +2624,11 @@ providedBy(PyObject* module, PyObject* ob)
 
     cp = PyObject_GetAttr(cls, str__provides__);
     if (cp == NULL) {
+        if (!PyErr_ExceptionMatches(PyExc_AttributeError)) {
+            Py_DECREF(cls);
+            Py_DECREF(result);
+            return NULL;
+        }
         /* The the class has no provides, assume we're done: */
         PyErr_Clear();
         Py_DECREF(cls);
